@@ -75,16 +75,21 @@ def catalogue(tier: str):
                         {'tasks': ['1/b'], 'flow': ['new']})]}, False),
     ]
     if tier == 'thorough':
+        # the small workflows above get a second restart (see make_factory);
+        # the wider ones below keep one
+        one = {'restarts': 1}
         rows += [
+            ('chain2-f2-r2', P1(shapes['chain2']), 2, {'restarts': 2}, True),
+            ('and-f2', P1(shapes['and']), 2, dict(one), True),
             ('prevb-f2-broadcast', P1(shapes['prevb']), 2,
              {'preamble': [('broadcast', ['2'], ['b'],
-                            [{'environment': {'X': '1'}}])]}, True),
-            ('and-f2', P1(shapes['and']), 2, {}, True),
+                            [{'environment': {'X': '1'}}])], **one}, True),
             ('chain2-f2-holdpoint', P1(shapes['chain2']), 2,
-             {'options': {'holdcp': '1'}, 'hold': 1}, True),
+             {'options': {'holdcp': '1'}, 'hold': 1, **one}, True),
             ('chain2-f2-stopcp1', P1(shapes['chain2']), 2,
-             {'options': {'stopcp': '1'}, 'stop': 1}, True),
+             {'options': {'stopcp': '1'}, 'stop': 1, **one}, True),
         ]
+        rows = [r for r in rows if r[0] != 'chain2-f2']
     specs = []
     for name, secs, fcp, extra, gf in rows:
         s = spec_from(secs, 1, fcp, name=name, **extra)
@@ -159,7 +164,9 @@ def run(ctx: Ctx) -> Result:
 
 
 def replay(payload):
-    specs = {s['name']: s for s in catalogue('thorough')}
+    tier = payload.get('tier', 'quick')
+    specs = {s['name']: s for t in ('thorough', 'quick', tier)
+             for s in catalogue(t)}
     return replay_violation(
         payload, lambda pl: make_factory(
             specs[pl['spec_name']], pl.get('tier', 'quick')))
